@@ -31,6 +31,7 @@ Inductive gexpr :=
 | GLit (ty : string) (fs : list (string * gexpr))
 | GAssert (e : gexpr) (ty : string)
 | GFunc (body : list gstmt)
+| GSel (e : gexpr) (f : string)       (* a selector on an operand that is not a plain path, e.g. Config{...}.Use *)
 | GOther (s : string)
 with gstmt :=
 | GExprS (e : gexpr)
@@ -42,8 +43,10 @@ with gstmt :=
 | GBlock (l : list gstmt)
 | GRange (k v : string) (coll : gexpr) (body : list gstmt)
 | GWhile (c : gexpr) (body : list gstmt)
+| GFor (init : gstmt) (c : gexpr) (post : gstmt) (body : list gstmt)
 | GDefer (e : gexpr)
 | GGo (e : gexpr)
+| GBranch (what : string)      (* break / continue (unlabelled) *)
 | GOtherS (s : string).
 
 Record gfunc := mkGFunc { gf_name : string; gf_params : list string; gf_body : list gstmt }.
@@ -120,6 +123,8 @@ Section Interp.
     | "+", VZ x, VZ y => VZ (x + y)
     | "-", VZ x, VZ y => VZ (x - y)
     | "*", VZ x, VZ y => VZ (x * y)
+    | "^", VZ x, VZ y => VZ (Z.lxor x y)
+    | "+", VStr x, VStr y => VStr (x ++ y)
     | "==", VB x, VB y => VB (Bool.eqb x y)
     | "!=", VB x, VB y => VB (negb (Bool.eqb x y))
     | "==", VStr x, VStr y => VB (String.eqb x y)
@@ -182,6 +187,10 @@ Section Interp.
       | GNil => k VNil s
       | GUn "&" (GLeaf p) => k (VRef p) s
       | GUn "&" (GId x) => k (VRef x) s
+      | GUn "<-" (GLeaf p) =>       (* a channel receive: what it synchronises with is the primitive table's business *)
+          match P "<-" [VRef p] s with
+          | Some (v, s1) => k v s1
+          | None => kbad ("receive from " ++ p) end
       | GUn op a => eval fuel' a s (fun v s1 => k (unop op v) s1)
       | GBin "&&" a b =>
           eval fuel' a s (fun v s1 => match v with
@@ -202,6 +211,7 @@ Section Interp.
                                       | Some (v', s2) => k v' s2
                                       | None => kbad ("unknown assertion " ++ ty) end)
       | GFunc _ => k (VPtr true "func") s
+      | GSel a f => eval fuel' a s (fun v s1 => k (VRec "selection" [("of", v); ("field", VStr f)]) s1)
       | GOther x => kbad ("untranslated expression " ++ x)
       end
     end.
@@ -289,6 +299,7 @@ Section Interp.
                                           | Some s2 => k s2
                                           | None => kbad "loop not recognised" end)
       | GWhile _ _ => kbad "loop"
+      | GFor _ _ _ _ => kbad "loop"
       | GDefer e =>
           match e with
           | GCall "$closure" [GFunc body] => k (push_defer body s)     (* defer func() { ... }() *)
@@ -297,6 +308,7 @@ Section Interp.
           end
       | GGo (GCall "$closure" [GFunc body]) => k (push_go body s)
       | GGo _ => k (emit "go" [] s)
+      | GBranch what => kret [VStr what] s     (* leaves the loop body being interpreted: reported like a return *)
       | GOtherS x => kbad ("untranslated statement " ++ x)
       end
     end.
@@ -334,6 +346,11 @@ Fixpoint first_range (fuel : nat) (l : list gstmt) : option (string * string * l
         match first_range fuel' body with
         | Some inner => Some inner
         | None => Some (k, v, body)
+        end
+    | GFor _ _ _ body :: r =>      (* an index loop over the same elements *)
+        match first_range fuel' body with
+        | Some inner => Some inner
+        | None => Some ("", "", body)
         end
     | GBlock b :: r => match first_range fuel' b with Some x => Some x | None => first_range fuel' r end
     | _ :: r => first_range fuel' r
